@@ -112,6 +112,11 @@ def run(rep, facts):
                     rep.violation("R14.2", "none-returns-ready", "with no live token poll must return Ready", n.loc())
                 else:
                     rep.ok("R14.2", "none-returns-ready", "None => Ready", n.loc())
+            elif sh is not None and sh[0] == 1 and "REG" not in st:
+                # a way out of poll that neither saw the upgrade fail nor registered *this* call's waker (e.g. a cached "already registered"
+                # flag): the task polling now -- possibly another one than last time -- is never woken for the completion
+                rep.violation("R14.2", "pending-registers-waker", "poll returns Pending on a path that does not register the waker of the current call "
+                              "(a waiter that took the future over from another task is never woken)", n.loc())
     rep.floor("R14.2", "drops of the upgraded Arc on the Some path", ndrops, 1)
 
     # ---- R14.1 -------------------------------------------------------------------------------------------
